@@ -82,7 +82,8 @@ func startDeadline(env *vh.Env, rep *vh.Report) {
 	go func() {
 		time.Sleep(d)
 		repMu.Lock()
-		rep.Fail("property", "harness:deadline", fmt.Sprintf("the harness did not finish within %v: some operation of the implementation never returned; partial report written", d), nil)
+		rep.Note("the harness did not finish within %v (busy machine?): partial report written; hangs of the implementation are reported by the per-call watchdogs", d)
+		rep.Count("harness-deadline")
 		rep.Write(env.Out)
 		os.Exit(0)
 	}()
@@ -141,7 +142,7 @@ func observe(typ string, obj interface{}) string {
 			return
 		}
 		res := "?"
-		if o := vh.GuardTimeout(time.Second, func() { res = canon(m.Call(args)) }); !o.OK() {
+		if o := vh.GuardTimeout(hangLimit, func() { res = canon(m.Call(args)) }); !o.OK() {
 			res = o.String()
 		}
 		parts = append(parts, fmt.Sprintf("%s(%d)=%s", name, k, res))
@@ -200,7 +201,7 @@ func oracleSequential(c ctor, st prepState, ops []ocall, order []int) (oracleRun
 		if !ok {
 			return r, false
 		}
-		if o := vh.GuardTimeout(2*time.Second, func() { r.rets[i] = guardedCall(m, args) }); o.Timeout {
+		if o := vh.GuardTimeout(hangLimit, func() { r.rets[i] = guardedCall(m, args) }); o.Timeout {
 			r.hung = true
 			return r, true
 		}
@@ -247,7 +248,7 @@ func oracleConcurrent(c ctor, st prepState, ops []ocall) (oracleRun, bool) {
 	go func() { wg.Wait(); close(done) }()
 	select {
 	case <-done:
-	case <-time.After(3 * time.Second):
+	case <-time.After(hangLimit):
 		r.hung = true
 		return r, true
 	}
@@ -372,7 +373,7 @@ func oracleLockstepType(env *vh.Env, rep *vh.Report, facts lockFacts, c ctor) {
 							}
 							if conc.hung {
 								rep.Fail("property", c.name+"."+m+":blocks-forever",
-									fmt.Sprintf("%s: %v started behind the instance lock (state '%s') did not finish within 3 s after its release", c.name, ops, st.name),
+									fmt.Sprintf("%s: %v started behind the instance lock (state '%s') did not finish within 25 s after its release", c.name, ops, st.name),
 									map[string]interface{}{"type": c.name, "state": st.name, "calls": fmt.Sprint(ops)})
 								hungOnce = true
 							} else if !match && len(seq) > 0 {
@@ -466,16 +467,16 @@ func blockingQueues(env *vh.Env, rep *vh.Report) {
 				ok := true
 				select {
 				case <-done:
-				case <-time.After(3 * time.Second):
+				case <-time.After(hangLimit):
 					ok = false
 				}
 				rep.Case(fmt.Sprintf("blocked-consumers %s n=%d put-mode=%d", name, n, mode), n > 1)
 				rep.Count("blocked-consumers:runs")
 				if !ok {
 					sz := -1
-					vh.GuardTimeout(time.Second, func() { sz = size() })
+					vh.GuardTimeout(hangLimit, func() { sz = size() })
 					rep.Fail("property", name+".Get:blocks-forever",
-						fmt.Sprintf("%d consumers blocked in %s.Get(), then %d back-to-back puts: only %d consumers returned within 3 s although Size() = %d", n, name, n, atomic.LoadInt32(&returned), sz),
+						fmt.Sprintf("%d consumers blocked in %s.Get(), then %d back-to-back puts: only %d consumers returned within 25 s although Size() = %d", n, name, n, atomic.LoadInt32(&returned), sz),
 						map[string]interface{}{"type": name, "consumers": n, "puts": n, "put_mode": []string{"Put/Put1", "PutForce/PutForce1", "Put/Put2", "PutForce/PutForce2"}[mode], "returned": atomic.LoadInt32(&returned), "size": sz,
 							"how": "start n goroutines calling Get() on an empty queue, wait 10 ms, call Put n times without pause, wait 3 s"})
 					return // every further run would wait for its watchdog too
@@ -581,7 +582,7 @@ func presentKeyRound(rep *vh.Report, c ctor) bool {
 	hung := false
 	select {
 	case <-fin:
-	case <-time.After(10 * time.Second):
+	case <-time.After(hangLimit):
 		hung = true
 		atomic.StoreInt32(&stop, 1)
 	}
@@ -591,7 +592,7 @@ func presentKeyRound(rep *vh.Report, c ctor) bool {
 	rep.Count("growth:present-key-rounds")
 	if hung {
 		markDead(c.name)
-		rep.Fail("property", c.name+":stress-deadlock", "two writers inserting 400 keys each and two readers did not finish within 10 s", map[string]interface{}{"type": c.name})
+		rep.Fail("property", c.name+":stress-deadlock", "two writers inserting 400 keys each and two readers did not finish within 25 s", map[string]interface{}{"type": c.name})
 		return false
 	}
 	if b := bad.Load(); b != nil {
@@ -647,7 +648,7 @@ func removersRound(rep *vh.Report, c ctor) bool {
 	hung := false
 	select {
 	case <-fin:
-	case <-time.After(10 * time.Second):
+	case <-time.After(hangLimit):
 		hung = true
 	}
 	repMu.Lock()
@@ -656,7 +657,7 @@ func removersRound(rep *vh.Report, c ctor) bool {
 	rep.Count("growth:remover-rounds")
 	if hung {
 		markDead(c.name)
-		rep.Fail("property", c.name+":stress-deadlock", "four concurrent removers on 60 elements did not finish within 10 s", map[string]interface{}{"type": c.name})
+		rep.Fail("property", c.name+":stress-deadlock", "four concurrent removers on 60 elements did not finish within 25 s", map[string]interface{}{"type": c.name})
 		return false
 	}
 	seen := map[string]int{}
@@ -668,7 +669,7 @@ func removersRound(rep *vh.Report, c ctor) bool {
 		}
 	}
 	size := "?"
-	vh.GuardTimeout(time.Second, func() { size = canon(reflect.ValueOf(obj).MethodByName("Size").Call(nil)) })
+	vh.GuardTimeout(hangLimit, func() { size = canon(reflect.ValueOf(obj).MethodByName("Size").Call(nil)) })
 	var dups []string
 	for x, k := range seen {
 		if k > 1 || x == "panic" {
@@ -745,7 +746,7 @@ func partialWakeups(env *vh.Env, rep *vh.Report) {
 				var got []string
 				bad := ""
 				seen := map[int]bool{}
-				deadline := time.After(1500 * time.Millisecond)
+				deadline := time.After(hangLimit)
 			collect:
 				for len(got) < k {
 					select {
@@ -837,11 +838,11 @@ func containerArgProbes(env *vh.Env, rep *vh.Report) {
 					continue
 				}
 				args[argPos] = reflect.ValueOf(a)
-				o := vh.GuardTimeout(2*time.Second, func() { meth.Call(args) })
+				o := vh.GuardTimeout(hangLimit, func() { meth.Call(args) })
 				rep.Case(fmt.Sprintf("container-arg self %s.%s n=%d", c.name, m.Name, n), true)
 				if o.Timeout {
 					rep.Fail("property", c.name+"."+m.Name+":deadlock",
-						fmt.Sprintf("%s.%s called with the receiver itself as argument (%d elements) did not return within 2 s", c.name, m.Name, n),
+						fmt.Sprintf("%s.%s called with the receiver itself as argument (%d elements) did not return within 25 s", c.name, m.Name, n),
 						map[string]interface{}{"type": c.name, "method": m.Name, "how": fmt.Sprintf("m := New…(); insert %d elements; m.%s(m) under a 2 s watchdog", n, m.Name)})
 					break
 				}
@@ -885,13 +886,13 @@ func containerArgProbes(env *vh.Env, rep *vh.Report) {
 				hung := false
 				select {
 				case <-done:
-				case <-time.After(2 * time.Second):
+				case <-time.After(hangLimit):
 					hung = true
 				}
 				rep.Case(fmt.Sprintf("container-arg opposite %s.%s lockstep=%v", c.name, m.Name, lockstep), true)
 				if hung {
 					rep.Fail("property", c.name+"."+m.Name+":deadlock",
-						fmt.Sprintf("a.%s(b) and b.%s(a) on two %s instances running concurrently did not finish within 2 s (lock order between the two instances)", m.Name, m.Name, c.name),
+						fmt.Sprintf("a.%s(b) and b.%s(a) on two %s instances running concurrently did not finish within 25 s (lock order between the two instances)", m.Name, m.Name, c.name),
 						map[string]interface{}{"type": c.name, "method": m.Name, "lockstep": lockstep,
 							"how": "two instances with 3 elements each; (lock-step: hold both instance locks, start a.M(b) and b.M(a), release both) ; watchdog 2 s"})
 					break
@@ -909,7 +910,7 @@ func enumerateKeys(obj interface{}, limit int) (keys []string, why string) {
 	if !km.IsValid() || km.Type().NumIn() != 0 {
 		return nil, "no-keys"
 	}
-	o := vh.GuardTimeout(3*time.Second, func() {
+	o := vh.GuardTimeout(hangLimit, func() {
 		en := km.Call(nil)[0]
 		if en.Kind() == reflect.Interface {
 			en = en.Elem()
@@ -990,8 +991,8 @@ func readLockWriterStress(env *vh.Env, rep *vh.Report, facts lockFacts) {
 				why := ""
 				select {
 				case <-fin:
-				case <-time.After(5 * time.Second):
-					why = "the eight goroutines did not finish within 5 s"
+				case <-time.After(hangLimit):
+					why = "the eight goroutines did not finish within 25 s"
 				}
 				if why == "" && atomic.LoadInt32(&panics) > 0 {
 					why = fmt.Sprintf("%d goroutines panicked inside %s", panics, m)
@@ -1002,7 +1003,7 @@ func readLockWriterStress(env *vh.Env, rep *vh.Report, facts lockFacts) {
 					ws := append([]string(nil), want...)
 					sort.Strings(ws)
 					size := "?"
-					vh.GuardTimeout(time.Second, func() { size = canon(reflect.ValueOf(obj).MethodByName("Size").Call(nil)) })
+					vh.GuardTimeout(hangLimit, func() { size = canon(reflect.ValueOf(obj).MethodByName("Size").Call(nil)) })
 					switch {
 					case w != "":
 						why = w
@@ -1071,14 +1072,14 @@ func panicSafety(env *vh.Env, rep *vh.Report) {
 				}
 				at("panic-safety: %s with three entries (uncomparable values / panicking user keys, comparators, callbacks), then %s(seed %d)", c.name, m, seed)
 				atomic.StoreInt32(&poisonArmed, 1)
-				out := vh.GuardTimeout(2*time.Second, func() { meth.Call(args) })
+				out := vh.GuardTimeout(hangLimit, func() { meth.Call(args) })
 				atomic.StoreInt32(&poisonArmed, 0)
 				rep.Case(fmt.Sprintf("panic-safety %s.%s seed=%d", c.name, m, seed), out.Panic != "")
 				rep.Count("panic-safety:" + out.String())
 				if out.Panic == "" {
 					continue // no panic provoked (or a hang: the sweep's business)
 				}
-				after := vh.GuardTimeout(time.Second, func() { reflect.ValueOf(obj).MethodByName("Size").Call(nil) })
+				after := vh.GuardTimeout(hangLimit, func() { reflect.ValueOf(obj).MethodByName("Size").Call(nil) })
 				if after.Timeout {
 					rep.Fail("property", c.name+"."+m+":lock-leaked-after-panic",
 						fmt.Sprintf("%s.%s panicked (%s) on values of an uncomparable type / a panicking user callback; the caller recovered, but the instance lock was not released: Size() never returns", c.name, m, vh.Clip(out.Panic, 80)),
@@ -1121,7 +1122,7 @@ func orphanConsumers(env *vh.Env, rep *vh.Report) {
 				bad := ""
 				for i := 0; i < n && bad == ""; i++ {
 					var v interface{}
-					if o := vh.GuardTimeout(5*time.Second, func() { v = getT(3) }); !o.OK() {
+					if o := vh.GuardTimeout(hangLimit, func() { v = getT(3) }); !o.OK() {
 						bad = "GetTimeout(3) on an empty queue: " + o.String()
 					} else if v != nil {
 						bad = fmt.Sprintf("GetTimeout on an empty queue returned %v", v)
@@ -1131,7 +1132,7 @@ func orphanConsumers(env *vh.Env, rep *vh.Report) {
 				if bad == "" {
 					put(4242)
 					time.Sleep(15 * time.Millisecond)
-					vh.GuardTimeout(2*time.Second, func() { szv = size(); got = getNW() })
+					vh.GuardTimeout(hangLimit, func() { szv = size(); got = getNW() })
 					if szv != 1 || got != 4242 {
 						bad = fmt.Sprintf("after %d timed-out GetTimeout calls, Put(4242): Size() = %d and GetNoWait() = %v — the element vanished without any dequeue returning it", n, szv, got)
 					}
